@@ -628,7 +628,12 @@ static Family addrs_family(const std::string &tier)
   f.reqs.push_back(rq(9, "2001:db8::ff00:42:8329", 12, 0, 0, AF_INET6));
   for (int i = 0; i < (int)f.reqs.size(); i++) f.req_menu.push_back(i);
   f.replies   = { RK_DATA, RK_DATA_MULTI, RK_CNAME_DATA, RK_DATA_MIXED, RK_NODATA, RK_NXDOMAIN };
-  f.evmask    = EVBIT(EV_REQ) | EVBIT(EV_REPLY) | EVBIT(EV_SRCADDR);
+  // the RFC 6724 sort probes a source address per destination through the channel's socket functions: every one of
+  // those calls (the first few sockets after the query's own) may fail
+  f.faults      = { FS_SOCKET, FS_CONNECT, FS_GETSOCKNAME };
+  f.fault_skips = { 0, 1, 2, 3 };
+  f.max_dev     = 1;
+  f.evmask    = EVBIT(EV_REQ) | EVBIT(EV_REPLY) | EVBIT(EV_SRCADDR) | EVBIT(EV_FAULT);
   f.max_req   = 1;
   f.max_depth = tier == "quick" ? 4 : 5;
   f.default_oracles = "C13";
@@ -736,6 +741,11 @@ const Family *find_family(const std::string &name, const std::string &tier)
   else if (name == "retry-long") f = retry_long_family(tier);
   else if (name == "adversary") f = adversary_family(tier);
   else if (name == "cache") f = cache_family(tier);
+  else if (name == "cache-deep") {
+    // the quick alphabet one level deeper (the thorough alphabet does not complete at that depth)
+    f      = cache_family("quick");
+    f.name = "cache-deep";
+  }
   else if (name == "failover") f = failover_family(tier);
   else if (name == "search") f = search_family(tier);
   else if (name == "addrs") f = addrs_family(tier);
